@@ -330,7 +330,11 @@ def gen_device(rng) -> dict:
                     entries.append(grammar.gen_ace(rng, platform, version, allow_group=False, foreign=False, seq=seq, ws=False,
                                                    max_k=2, allow_neq_multi=True)["text"])
         if len(entries) > 1 and not numbered and rng.random() < 0.2:
-            entries.insert(rng.randint(1, len(entries)), rng.choice([e for e in entries if not e.startswith("remark")] or entries))
+            # duplicate entry; a duplicated *heading* remark is merged by group_by (one group per heading), so only
+            # permit/deny lines and plain remarks are duplicated
+            pool = [e for e in entries if "remark =" not in e and "remark #" not in e]
+            if pool:
+                entries.insert(rng.randint(1, len(entries)), rng.choice(pool))
         acls.append({"name": name, "type": acl_type, "entries": entries})
     intfs = {}
     acl_names = [a["name"] for a in acls] + ["UNDEFINED"]
